@@ -269,3 +269,45 @@ pub fn replace_header(block: &BlockView, header: packed::Header) -> BlockView {
             .into_view_without_reset_header(),
     }
 }
+
+/// Sign input group 0 of `tx` (all inputs locked by the same secp256k1_blake160_sighash_all
+/// lock) with the given private key: witness 0 becomes WitnessArgs{lock: 65-byte signature}.
+pub fn sign_secp(tx: TransactionView, privkey_hex: &str) -> TransactionView {
+    use ckb_crypto::secp::Privkey;
+    let key: Vec<u8> = (0..32)
+        .map(|i| u8::from_str_radix(&privkey_hex[i * 2..i * 2 + 2], 16).unwrap())
+        .collect();
+    let privkey = Privkey::from_slice(&key);
+    let zero_lock: Bytes = vec![0u8; 65].into();
+    let placeholder = packed::WitnessArgs::new_builder()
+        .lock(Some(zero_lock))
+        .build();
+    let mut hasher = ckb_hash::new_blake2b();
+    hasher.update(tx.hash().as_slice());
+    let w0 = placeholder.as_bytes();
+    hasher.update(&(w0.len() as u64).to_le_bytes());
+    hasher.update(&w0);
+    // other witnesses of the same group (inputs 1..) and extra witnesses
+    let witnesses: Vec<packed::Bytes> = tx.witnesses().into_iter().collect();
+    for w in witnesses.iter().skip(1) {
+        let raw = w.raw_data();
+        hasher.update(&(raw.len() as u64).to_le_bytes());
+        hasher.update(&raw);
+    }
+    let mut msg = [0u8; 32];
+    hasher.finalize(&mut msg);
+    let sig = privkey
+        .sign_recoverable(&ckb_types::H256::from(msg))
+        .expect("sign")
+        .serialize();
+    let signed = placeholder
+        .as_builder()
+        .lock(Some(Bytes::from(sig)))
+        .build();
+    let mut ws = witnesses;
+    if ws.is_empty() {
+        ws.push(Default::default());
+    }
+    ws[0] = signed.as_bytes().into();
+    tx.as_advanced_builder().set_witnesses(ws).build()
+}
